@@ -1247,7 +1247,7 @@ fn main() {
     let thorough = args.thorough();
     let n_gen: usize = args.extra.get("programs").and_then(|s| s.parse().ok()).unwrap_or(if thorough { 10000 } else { 400 });
     // robustness is run for every `robust_every`-th program
-    let robust_every: usize = args.extra.get("robust_every").and_then(|s| s.parse().ok()).unwrap_or(if thorough { 20 } else { 30 });
+    let robust_every: usize = args.extra.get("robust_every").and_then(|s| s.parse().ok()).unwrap_or(if thorough { 40 } else { 30 });
     let max_operand: usize = args.extra.get("max_operand").and_then(|s| s.parse().ok()).unwrap_or(if thorough { 8 } else { 3 });
     let workers: usize = args.extra.get("workers").and_then(|s| s.parse().ok()).unwrap_or(if thorough { 12 } else { 6 });
     let watchdog = Duration::from_secs(args.extra.get("watchdog").and_then(|s| s.parse().ok()).unwrap_or(if thorough { 15 } else { 4 }));
